@@ -157,3 +157,262 @@ def register_c01(R):
 def _reg_all(R):
     register(R)
     register_c01(R)
+
+
+# ------------------------------------------------------------------------------------------------ C19 / C18
+def node_signature(n, path=()):
+    """kind, content-relevant fields and EFFECTIVE flags of every node of a tree (what merging and evaluation can observe)"""
+    out = []
+    a = n.ayns
+    info = (type(n).__name__, a.priority, a.delete, a.explicit_delete, a.allow_new, a.safe, dict(a.metadata), a.source_file)
+    extra = ()
+    d = getattr(n, '__dict__', {})
+    for k in ('_func', 'ref_point', 'filenames', 'persistent_namespace'):
+        if k in d:
+            extra += ((k, str(d[k]) if k == 'ref_point' else repr(d[k])),)
+    out.append((path, info, extra))
+    if hasattr(a, 'named_children') and '_children' in d:
+        # both views
+        if isinstance(n, dict):
+            assert list(dict.keys(n)) == [k for k, _ in a.named_children()], (path, 'views differ')
+        if isinstance(n, list):
+            assert [id(x) for x in list.__iter__(n)] == [id(c) for _, c in a.named_children()], (path, 'views differ')
+        for k, c in a.named_children():
+            out.extend(node_signature(c, path + (k,)))
+    else:
+        try:
+            out.append((path, 'value', repr(n.ayns.native_value)))
+        except Exception as e:
+            out.append((path, 'value-error', type(e).__name__))
+    return out
+
+
+def all_ids(n):
+    out = {id(n)}
+    d = getattr(n, '__dict__', {})
+    if '_children' in d:
+        for c in d['_children'].values():
+            out |= all_ids(c)
+    return out
+
+
+FULLTAGS = ('force', 'weak', 'del', 'merge', 'new', 'unsafe')
+
+
+def gen_rich_doc(rng):
+    """documents over the wider vocabulary: merge-control tags plus dynamic / structural node kinds as leaves"""
+    g = G.Gen(rng, tags=FULLTAGS, p_tag=0.35, int_keys=True)
+    d = g.map(3, top=True)
+    specials = ["!xref a", "!required", "!call:builtins.dict {x: 1}", "!bind:builtins.dict {y: !force 2}", "!eval '1 + 1'", "f'{1}x'", "!path [a, b]",
+                "!path:parent [c]", "!import os.path", "!null", "!metadata{{'k': 1, 'priority': 1}} 7", "!call:builtins.list [[1, 2]]", "!append [1]", "!prev a"]
+    text = G.render(d)
+    items = []
+    for _ in range(rng.randint(0, 3)):
+        items.append(f's{len(items)}: {rng.choice(specials)}')
+    if items:
+        text = text[:-1] + (', ' if len(text) > 2 else '') + ', '.join(items) + '}'
+    return text
+
+
+def run_c19(repo, tier, seed, only=None):
+    ay = load(repo)
+    import awesomeyaml.yaml as ayyaml
+    rng = random.Random(19000 + seed)
+    R = Runner('C19')
+    for _ in range(n_cases(tier, 250, 4000)):
+        text = gen_rich_doc(rng)
+        try:
+            b = ay.Builder()
+            b.add_source(text, raw_yaml=True, filename='mem.yaml', safe=rng.random() < 0.8)
+            tree = b.stages[0]
+        except Exception:
+            continue
+        R.case(text, {'doc': text})
+        try:
+            sig = node_signature(tree)
+        except AssertionError as e:
+            R.fail('bounded:C19.checker-precondition', f'doc={text!r}: parsed tree inconsistent {e}', {'family': 'c19', 'docs': [text]})
+            continue
+        for label, mk in (('deepcopy', lambda t: copy.deepcopy(t)), ('pickle', lambda t: pickle.loads(pickle.dumps(t)))):
+            try:
+                cp = mk(tree)
+                sig2 = node_signature(cp)
+            except Exception as e:
+                R.fail(f'bounded:C19.{label}-reproduces-the-tree', f'doc={text!r}: {label} failed with {type(e).__name__}: {e}'[:500], {'family': 'c19', 'docs': [text]})
+                continue
+            R.cases += 1
+            if sig2 != sig:
+                diff = [(x, y) for x, y in zip(sig, sig2) if x != y][:2]
+                R.fail(f'bounded:C19.{label}-reproduces-kinds-content-flags-and-metadata', f'doc={text!r}: first differences (original, copy): {diff!r}'[:900], {'family': 'c19', 'docs': [text]})
+            if all_ids(tree) & all_ids(cp):
+                R.fail(f'bounded:C19.{label}-shares-no-node-with-the-original', f'doc={text!r}', {'family': 'c19', 'docs': [text]})
+            # merges like the original: as older and as newer stage against another document
+            other = G.render(G.Gen(rng, tags=('force', 'weak', 'del', 'merge'), p_tag=0.3).map(2, top=True))
+
+            def merged(first, second):
+                try:
+                    bb = ay.Builder()
+                    bb.stages = [first, second]
+                    return ('ok', node_signature(bb.build()))
+                except Exception as e:
+                    return ('err', type(e).__name__)
+            def parse(t):
+                bb = ay.Builder()
+                bb.add_source(t, raw_yaml=True, filename='o.yaml')
+                return bb.stages[0]
+            r1 = merged(mk(tree), parse(other))
+            r2 = merged(mk(mk(tree)), parse(other))
+            r3 = merged(parse(other), mk(tree))
+            r4 = merged(parse(other), mk(mk(tree)))
+            if r1 != r2 or r3 != r4:
+                R.fail(f'bounded:C19.{label}-of-a-copy-merges-like-the-copy', f'doc={text!r} other={other!r}: {str(r1)[:200]} vs {str(r2)[:200]}'[:900], {'family': 'c19', 'docs': [text, other]})
+    return R.result()
+
+
+def run_c18(repo, tier, seed, only=None):
+    ay = load(repo)
+    import awesomeyaml.yaml as ayyaml
+    rng = random.Random(18000 + seed)
+    R = Runner('C18')
+    # recorded findings, re-confirmed on every run
+    for kname, text in (('delete-flag-equal-to-type-default-is-elided', 'a: !del []'), ('priority-of-a-null-value-is-dropped', 'a: !force')):
+        try:
+            t1 = list(ayyaml.parse(text))[0]
+            d1 = ayyaml.dump(t1)
+            t2 = list(ayyaml.parse(d1))[0]
+            R.cases += 1
+            if node_signature(t1) != node_signature(t2):
+                R.fail('bounded:C18.known:' + kname, f'doc={text!r} dumps as {d1!r}; the re-parsed tree differs in flags', {'family': 'c18', 'docs': [text]})
+        except Exception as e:
+            R.fail('bounded:C18.known:' + kname, f'doc={text!r}: {type(e).__name__}: {e}', {'family': 'c18', 'docs': [text]})
+    for _ in range(n_cases(tier, 250, 4000)):
+        text = gen_rich_doc(rng) if rng.random() < 0.5 else G.render(G.Gen(rng, tags=FULLTAGS, p_tag=0.35, int_keys=True).map(3, top=True))
+        if only is not None:
+            text = only
+        try:
+            t1 = list(ayyaml.parse(text))[0]
+        except Exception:
+            continue
+        if t1 is None:
+            continue
+        R.case(text, {'doc': text})
+        try:
+            d1 = ayyaml.dump(t1)
+            t2 = list(ayyaml.parse(d1))[0]
+            d2 = ayyaml.dump(t2)
+        except Exception as e:
+            R.fail('bounded:C18.dump-then-parse-succeeds', f'doc={text!r}: {type(e).__name__}: {e}'[:500], {'family': 'c18', 'docs': [text]})
+            continue
+        s1 = [(p, i[:7], x) if isinstance(i, tuple) else (p, i, x) for p, i, x in node_signature(t1)]       # source_file is not kept by a dump
+        s2 = [(p, i[:7], x) if isinstance(i, tuple) else (p, i, x) for p, i, x in node_signature(t2)]
+        if s1 != s2:
+            diff = [(x, y) for x, y in zip(s1, s2) if x != y][:2]
+            R.fail('bounded:C18.reparsed-document-has-the-same-kinds-flags-and-metadata', f'doc={text!r} dump={d1!r}: first differences {diff!r}'[:900], {'family': 'c18', 'docs': [text]})
+        if d1 != d2:
+            R.fail('bounded:C18.dump-of-the-reparsed-document-is-the-same-text', f'doc={text!r}: first dump {d1!r}, second {d2!r}'[:900], {'family': 'c18', 'docs': [text]})
+    return R.result()
+
+
+def register_c19(R):
+    R.tasks.append(Bounded('bounded:C19-deepcopy-and-pickle', ('C19',), run_c19,
+                           'parsed documents of depth<=3 over the full tag vocabulary and 14 dynamic/structural node kinds; copy, pickle round trip, merge as older/newer stage; quick 250 / thorough 4000 documents',
+                           stands_in_for='copy/pickle protocol driving ComposedNode.__reduce__/_recreate/__setstate__ and ConfigScalar.__reduce__ (state before or after items)'))
+    R.tasks.append(Bounded('bounded:C18-dump-parse', ('C18',), run_c18,
+                           'same generator as C19; dump, parse back, dump again; quick 250 / thorough 4000 documents',
+                           stands_in_for='PyYAML emitter, _node_representer recursion over the dumper stack'))
+
+
+def _reg_all(R):
+    register(R)
+    register_c01(R)
+    register_c19(R)
+
+
+# ------------------------------------------------------------------------------------------------ C12
+def eval_in_subprocess(repo, progs_cfgs, timeout=20):
+    """runs a SEQUENCE of builds in ONE child process; returns list of ('ok', repr) | ('err', cls, cause) and the exit status"""
+    code = ("import sys, json; sys.path.insert(0, %r); import awesomeyaml\n" % os.path.abspath(repo) +
+            "jobs = json.loads(sys.argv[1])\nout = []\n"
+            "for job in jobs:\n"
+            "    ctx = awesomeyaml.EvalContext(eval_symbols=job.get('symbols')) if job.get('symbols') is not None else None\n"
+            "    try:\n        c = awesomeyaml.Config.build(job['text'], raw_yaml=True, filename=job.get('filename'), eval_ctx=ctx)\n        out.append(['ok', repr(c['e'])])\n"
+            "    except Exception as e:\n        out.append(['err', type(e).__name__, type(getattr(e, '__cause__', None)).__name__])\n"
+            "    print('R', json.dumps(out[-1]), flush=True)\n")
+    try:
+        p = subprocess.run(['/venv/bin/python', '-c', code, json.dumps(progs_cfgs)], capture_output=True, text=True, timeout=timeout)
+    except subprocess.TimeoutExpired:
+        return [], 'timeout'
+    res = [json.loads(l[2:]) for l in p.stdout.split('\n') if l.startswith('R ')]
+    return res, p.returncode
+
+
+def native(prog, names):
+    lines = prog.strip().split('\n')
+    g = dict(names)
+    try:
+        exec('\n'.join(lines[:-1]), g)
+        return ['ok', repr(eval(lines[-1].strip(), g))]
+    except Exception as e:
+        return ['err', 'EvalError', type(e).__name__]
+
+
+def yaml_eval_doc(prog, cfg):
+    body = ''.join('    ' + l + '\n' for l in prog.split('\n'))
+    head = ''.join(f'{k}: {v!r}\n' for k, v in cfg.items())
+    return head + 'e: !eval |\n' + body
+
+
+def run_c12(repo, tier, seed, only=None):
+    rng = random.Random(12000 + seed)
+    R = Runner('C12')
+    # recorded finding (KNOWN_FINDINGS.txt): the bytecode rewriter on CPython >= 3.12 - fixed witnesses, re-confirmed on every run
+    for kname, prog in (('rewriter:two-config-names-in-one-code-object', 'a + b'), ('rewriter:second-name-resolves-to-the-first', 'a if b else 0')):
+        res, rc = eval_in_subprocess(repo, [{'text': yaml_eval_doc(prog, {'a': 2, 'b': 3}), 'filename': 'm.yaml'}])
+        exp = native(prog, {'a': 2, 'b': 3})
+        R.cases += 1
+        if rc != 0 or not res or res[0] != exp:
+            R.fail('bounded:C12.known:' + kname, f'program {prog!r} with a=2, b=3: native {exp!r}; through !eval: results {res!r}, exit status {rc!r}', {'family': 'c12', 'docs': [prog]})
+    # residual class: programs whose code objects mention at most one distinct global/config/builtin name (see the finding)
+    one_name = ['1 + 1', '2 * (3 + 4)', 'a + 1', 'a * a', '(lambda z: z + a)(1)', "{'k': a}['k']", '[a, a][1]', 'a if a else 0', "'x' * a", '-a', 'not a', '(a, a)', 'zz', '1 // 0', '1 +', '[a for _ in (1, 2)]']
+    cfg = {'a': 2}
+    jobs = []
+    for prog in one_name:
+        for fname in ('m.yaml', None):
+            jobs.append((prog, fname))
+    for prog, fname in jobs:
+        res, rc = eval_in_subprocess(repo, [{'text': yaml_eval_doc(prog, cfg), 'filename': fname}])
+        exp = native(prog, cfg) if prog != '1 +' else ['err', 'EvalError', 'SyntaxError']
+        R.case((prog, fname), {'program': prog, 'filename': fname, 'expected': exp})
+        if rc != 0 or not res or res[0] != exp:
+            R.fail('bounded:C12.eval-computes-what-python-computes' + ('' if fname else '(no-file-name)'),
+                   f'program {prog!r} a=2 filename={fname!r}: native {exp!r}; through !eval {res!r}, exit status {rc!r}', {'family': 'c12', 'docs': [prog], 'filename': fname})
+    # histories: several builds in ONE process must not see each other (config values, symbols)
+    for _ in range(n_cases(tier, 6, 40)):
+        prog = rng.choice(['x = 1\na', 'a * 10', 'y = a\ny', 'import math\na'])
+        vals = [rng.randint(1, 9) for _ in range(3)]
+        seqs = [{'text': yaml_eval_doc(prog, {'a': v}), 'filename': 'm.yaml'} for v in vals]
+        res, rc = eval_in_subprocess(repo, seqs)
+        exp = [native(prog, {'a': v}) for v in vals]
+        R.case((prog, tuple(vals)), {'program': prog, 'values_of_a_in_successive_builds': vals})
+        if rc != 0 or res != exp:
+            R.fail('bounded:C12.value-depends-only-on-the-current-build', f'program {prog!r} built with a={vals} in one process: expected {exp!r}, got {res!r} (exit {rc!r})', {'family': 'c12', 'docs': [prog], 'values': vals})
+    # symbols of the evaluation context
+    seqs = [{'text': yaml_eval_doc('s = sym\ns', {'a': 1}), 'filename': 'm.yaml', 'symbols': {'sym': v}} for v in (11, 22)]
+    res, rc = eval_in_subprocess(repo, seqs)
+    R.cases += 1
+    if rc != 0 or res != [['ok', '11'], ['ok', '22']]:
+        R.fail('bounded:C12.value-depends-only-on-the-current-build', f'symbol sym=11 then sym=22 in one process: got {res!r} (exit {rc!r})', {'family': 'c12', 'docs': ['s = sym\ns']})
+    return R.result()
+
+
+def register_c12(R):
+    R.tasks.append(Bounded('bounded:C12-eval-programs', ('C12',), run_c12,
+                           '16 one-name programs x (with / without source file name), each in its own child process (exit status checked); 6 (thorough 40) histories of three builds in one process; fixed witnesses of the recorded rewriter finding',
+                           stands_in_for='EvalNode._patch_access_to_globals (CPython bytecode rewriting: outside any source-level contract), compile/exec/eval, sys.modules namespace cache'))
+
+
+def _reg_all(R):
+    register(R)
+    register_c01(R)
+    register_c19(R)
+    register_c12(R)
